@@ -297,6 +297,8 @@ TIE.update({
 })
 # store/src/lib.rs, the command loop of the store task (tools/skelstore.py -> coq/GenStore.v; refinement to StoreDefs.sstep)
 PROPS['C16'].setdefault('tie', []).append('store_step')
+# mempool/src/quorum_waiter.rs, the acknowledgement loop (tools/skelqw.py -> coq/GenQW.v; equal to QuorumWaiterDefs.qw)
+PROPS['C12'].setdefault('tie', []).append('qw_loop')
 PROPS['C16']['extra_props'] = PROPS['C16'].get('extra_props', []) + ['StoreGen']   # C16 stated about the regenerated loop itself
 PROPS['C16']['vo'] = PROPS['C16']['vo'] + ['Props/StoreGen.vo']
 for _f, _ps in TIE.items():
